@@ -252,7 +252,7 @@ func TestBalances(t *testing.T) {
 	if pbt.Tier() == "thorough" {
 		p.MaxTx, p.MaxOps = 12, 120
 	}
-	pbt.Check(t, pbt.Cfg{Name: "balances", Quick: 1000, Thorough: 30000}, func(r *pbt.Run) {
+	pbt.Check(t, pbt.Cfg{Name: "balances", Quick: 1000, Thorough: 10000}, func(r *pbt.Run) {
 		c := genCase(r.T, p)
 		r.Case(c)
 		st := &stats{}
